@@ -1,0 +1,9 @@
+//go:build verif
+
+package net
+
+import "net"
+
+// SimHandleConn lets a simulation harness serve one inbound connection on its
+// own goroutine (under its own recover) instead of through Listen.
+func (n *NetworkTransport) SimHandleConn(conn net.Conn) { n.handleConn(conn) }
